@@ -91,6 +91,10 @@ def run_with_oracle(chk: Check, scn: ch.Scn, label: str):
             for nm, a, b2 in zip(("params", "losses", "series", "batch labels", "sampler labels"), before, after):
                 if len(b2) < len(a) or a.tobytes() != b2[:len(a)].tobytes():
                     errs.append(f"append-only violated: previously recorded {nm} changed")
+            for shp, byt in ch.STATE.get("real_args", set()):
+                if byt != np.ascontiguousarray(self.real_data).tobytes():
+                    errs.append(f"a loss was computed against an array of shape {shp} that is not the real data (shape {self.real_data.shape})")
+                    break
             rec = ch.STATE.get("_rec")
             if rec is not None:
                 errs.extend(oracle_history(scn, self, rec.get("_order", []), loss_of, None, None))
@@ -178,7 +182,19 @@ def run(chk: Check):
     chk.proof_stage(PROP_FILE)
     n = 150 if chk.tier == "quick" else 2500
     for i in range(n):
-        scn = ch.gen_scn(rng, sched="rr", max_batches=rng.randint(2, 10))
+        sched = "rl" if i % 6 == 5 else "rr"
+        scn = ch.gen_scn(rng, sched=sched, max_batches=rng.randint(2, 10))
+        if sched == "rl":
+            # RL scheduler: no saving folder (it cannot be pickled, C04 finding); several calibrate() calls = several sessions
+            scn.folder = False
+            scn.ops = [o for o in scn.ops if o[0] == "C"] or [("C", 2)]
+            if rng.random() < 0.4:
+                scn.agent = "eps"; scn.agent_opts = (rng.choice([-1.0, 0.5]), rng.choice([0.0, 0.3, 1.0]), 0.0)
+        chk.count("scheduler:" + sched)
+        if rng.random() < 0.4:
+            scn.real_len = scn.simlen + rng.choice([-1, 1, 5, 20]) if scn.simlen > scn.dims + 3 or rng.random() < 0.5 else scn.simlen + 7
+            scn.real_len = max(scn.real_len, 2)
+            chk.count("real_len:" + ("longer" if scn.real_len > scn.simlen else "shorter"))
         lines, info, errs = run_with_oracle(chk, scn, "stub")
         nb = info["cal"].current_batch_index
         chk.case(scn_json(scn), len([o for o in scn.ops if o[0] == "C"]) >= 2 and nb >= 3,
